@@ -208,6 +208,56 @@ impl Tree {
         t
     }
 
+    /// Two occurrences of the same one-line entry are moved into one shared file that is then
+    /// included from both places (a diamond: the same file reached twice without any cycle).
+    pub fn share_duplicate(&mut self, entries: &[String], text: &str) -> bool {
+        let ks: Vec<usize> = entries.iter().enumerate().filter(|(_, e)| e.as_str() == text).map(|(k, _)| k).collect();
+        if ks.len() < 2 || text.matches('\n').count() != 1 {
+            return false;
+        }
+        let shared = "shared/common.ledger".to_string();
+        for k in &ks {
+            let file = self.placement[*k].clone();
+            let inc = format!("include {}\n", relative(&file, &shared));
+            let Some(content) = self.files.get_mut(&file) else { return false };
+            // same number of lines, so the line numbers of the other entries do not move
+            *content = content.replacen(text, &inc, 1);
+            self.placement[*k] = shared.clone();
+            self.entry_line[*k] = 1;
+        }
+        self.files.insert(shared, format!("{}\n", text));
+        self.feature("same-file-included-twice");
+        true
+    }
+
+    /// Puts an include of a zero-byte file in front of `n` random files.
+    pub fn include_empty_files(&mut self, rng: &mut Rng, n: usize) {
+        let candidates: Vec<String> = self.placement.iter().cloned().collect::<std::collections::BTreeSet<_>>().into_iter().collect();
+        if candidates.is_empty() {
+            return;
+        }
+        for i in 0..n {
+            let file = rng.pick(&candidates).clone();
+            let empty = join(&dir_of(&file), &format!("empty{}.ledger", i));
+            if self.files.contains_key(&empty) {
+                continue;
+            }
+            // a file inside a glob directory must not add a sibling that the pattern would match
+            if dir_of(&file).rsplit('/').next().map(|d| d.starts_with('g') || d.starts_with("20")).unwrap_or(false) {
+                continue;
+            }
+            self.files.insert(empty.clone(), String::new());
+            let content = self.files.get_mut(&file).unwrap();
+            *content = format!("include {}\n\n{}", relative(&file, &empty), content);
+            for k in 0..self.placement.len() {
+                if self.placement[k] == file {
+                    self.entry_line[k] += 2;
+                }
+            }
+            self.feature("include-of-empty-file");
+        }
+    }
+
     pub fn as_fake(&self, base: &str) -> Vec<(String, String)> {
         self.files.iter().map(|(p, c)| (format!("{}/{}", base, p), c.clone())).collect()
     }
